@@ -490,7 +490,7 @@ func (fc *FnCtx) localsAt(pos token.Pos) map[string]types.Object {
 }
 
 func (fc *FnCtx) checkPost(st *State, at ast.Node) {
-	if fc.dry > 0 {
+	if fc.dry > 0 || fc.inlineDepth > 0 {
 		return
 	}
 	saved, savedOld, savedOF := fc.scope, fc.oldEnv, fc.oldFresh
@@ -535,6 +535,9 @@ func (fc *FnCtx) applyUses(st *State, kind string, loop int, pos token.Pos, at a
 	}
 	for ui, cl := range fc.contract.Clauses {
 		if cl.Kind != kind || cl.Loop != loop {
+			continue
+		}
+		if kind == "use-call" && cl.Label != fc.useCallee {
 			continue
 		}
 		call, ok := cl.Expr.(*ast.CallExpr)
